@@ -17,7 +17,7 @@ prop(
     "C11",
     level="proof",
     design_ref="DESIGN.md section 3, C11",
-    groups=[(["./plugin/input/http"], r"^\(\*Plugin\)\.(processChunk|processBulk|newReadBuff|newEventBuffs)$")],
+    groups=[(["./plugin/input/http"], r"^\(\*Plugin\)\.(processChunk|processBulk|newReadBuff|newEventBuffs|serveBulk|getSourceID|putSourceID)$")],
     claim=(
         "For every request body, every chunking of it into reads (io.Reader.Read may return any n) and every buffer state, "
         "each call of the pipeline's In() made by processBulk/processChunk receives exactly the next newline-separated line of the body "
@@ -25,8 +25,7 @@ prop(
         "including an unterminated last line, has been handed over. Proved by loop invariants over the real SSA, no bound."
     ),
     undecided=[
-        "serveBulk: that the 200 response is written only when processBulk returned nil is straight-line code behind a conditional defer (not modelled); read, not proved",
-        "concurrent requests never mix bytes: rests on sync.Pool handing a buffer to one owner at a time (trusted) and on the source-id free list (monitor clause, not yet under contract)",
+        "concurrent requests never mix bytes: rests on sync.Pool handing a buffer to one owner at a time (trusted); the source-id free list is under a monitor invariant (distinct ids below sourceSeq, the returned id leaves the list) given that an id is put back once, by its holder (explicit assumption in putSourceID)",
         "gzip: the same contract over the decompressed stream; gzip.Reader is trusted to be an io.Reader of it",
     ],
     assumptions=[
